@@ -57,6 +57,32 @@ Section Config.
   Qed.
 End Config.
 
+(* key files: trailing blanks and line ends do not matter, an empty file is refused *)
+Lemma rtrim_ws w : forallb is_ws w = true -> rtrim w = [].
+Proof.
+  induction w as [|c w IH]; intros H; [reflexivity|].
+  cbn [forallb] in H. apply andb_true_iff in H. destruct H as [Hc Hw].
+  cbn [rtrim]. rewrite (IH Hw), Hc. reflexivity.
+Qed.
+
+Lemma rtrim_app_ws s w : forallb is_ws w = true -> rtrim (s ++ w) = rtrim s.
+Proof.
+  intros Hw. induction s as [|c s IH]; cbn [app]; [cbn [rtrim]; apply rtrim_ws; exact Hw|].
+  cbn [rtrim]. rewrite IH. reflexivity.
+Qed.
+
+Lemma key_file_trailing_blanks s w : s <> [] -> forallb is_ws w = true ->
+  key_of_src (KFile (s ++ w)) = key_of_src (KFile s).
+Proof.
+  intros Hs Hw. unfold key_of_src.
+  destruct s as [|c s]; [contradiction|]. cbn [app is_nil].
+  change (c :: s ++ w) with ((c :: s) ++ w). rewrite rtrim_app_ws by exact Hw. reflexivity.
+Qed.
+
+Lemma key_file_empty_refused enc mac cbc hkey ckey :
+  pool_decide enc mac cbc = PEncHmacSha1 -> pool_config enc mac cbc (KFile []) hkey ckey = inl (PrepErr 11 false).
+Proof. intros H. unfold pool_config. rewrite H. reflexivity. Qed.
+
 Lemma cbc_key_size_values n sz : cbc_key_size n = Some sz -> sz = 16%nat \/ sz = 24%nat \/ sz = 32%nat.
 Proof.
   unfold cbc_key_size.
